@@ -232,8 +232,9 @@ class ExternalVariableCollector(NodeVisitor):
             self._bound_in_body(node.id)
 
     def _bound_in_body(self, name):
-        if self.provenance.get(name) != "argument":
-            # A parameter that is assigned again remains a parameter
+        if self.provenance.get(name) not in ("argument", "closure"):
+            # A parameter that is assigned again remains a parameter, and
+            # a closure variable can only be assigned through `nonlocal`
             self.provenance[name] = "body"
         self.assigned.add(name)
 
